@@ -205,6 +205,12 @@ class Sched(object):
             vi = op[1]
             if vi < len(self.views) and self.views[vi] is not None:
                 self.fresh(vi)
+        elif kind in ('LEN', 'LOOK', 'HEADER'):
+            # petl's own consumers: they create an iterator behind the
+            # scenes and exhaust it (len) or abandon it (look, header)
+            vi = op[1]
+            if vi < len(self.views) and self.views[vi] is not None:
+                self._petl_consumer(kind, vi)
         else:
             raise ValueError('unknown step %r' % (op,))
         live = [t for t in self.tasks.values() if not t.done]
@@ -215,6 +221,44 @@ class Sched(object):
             self.overlap = True
         if self.after_step is not None:
             self.after_step(self, op)
+
+    def _petl_consumer(self, kind, vi):
+        from .loader import load_petl
+        e = load_petl()
+        view = self.views[vi]
+        exp = self.expected[vi]
+        if kind != 'LEN' and (self.canon is not canon_row or not exp):
+            # look() and header() need a table with a header row
+            return
+        try:
+            with devices.as_task('petl-' + kind.lower()):
+                if kind == 'LEN':
+                    n = len(view)
+                    if exp is not None and n != len(exp):
+                        raise Violation(
+                            'len-differs', 'len(view %d) is %d, a solo pass '
+                            'yields %d rows' % (vi, n, len(exp)))
+                elif kind == 'LOOK':
+                    str(e.look(view, limit=2))
+                else:
+                    h = e.header(view)
+                    if exp is not None and exp and \
+                            self.canon is canon_row and \
+                            canon_row(h) != exp[0]:
+                        raise Violation(
+                            'header-differs', 'header(view %d) is %r, a '
+                            'solo pass starts with %r' % (vi, h, exp[0]))
+        except Violation:
+            raise
+        except (Exception, devices.SimSourceAbort) as ex:
+            if self.expect_fault is not None and self.expect_fault(None, ex):
+                self.log.add('consumer-failed', kind, canon_exc(ex))
+                return
+            raise Violation('task-raised', '%s on view %d raised %s: %s '
+                            '(solo pass does not raise)'
+                            % (kind.lower(), vi, type(ex).__name__, ex),
+                            exc=type(ex).__name__)
+        self.probe('petl-consumer:' + kind)
 
     def fresh(self, vi, label=None):
         """A new complete solo pass over view vi."""
@@ -365,6 +409,13 @@ def gen_schedule(rng, nviews=1, ntasks=None, maxsteps=40, shape=None,
     for op in ops_extra:
         pos = rng.randint(0, len(steps))
         steps.insert(pos, op)
+    # petl's own consumers as hidden iterators (len exhausts, look/header
+    # abandon)
+    if rng.random() < 0.25:
+        for _ in range(rng.choice([1, 1, 2])):
+            steps.insert(rng.randint(0, len(steps)),
+                         [rng.choice(['LEN', 'LOOK', 'HEADER']),
+                          rng.randrange(nviews)])
     return steps[:maxsteps + len(ops_extra)], shape
 
 
